@@ -115,7 +115,7 @@ def h_lines() -> bool:
     for cand in range(3):
         if lv == cand:
             vcps = v_all[:cand]
-    k2cps, k2s = sym_chars("k2", 1, '"\\a')
+    k2cps, k2s = sym_chars("second", 1, '"\\a')
     I = [32] * 4
     ktok, vtok, k2tok = esc(kcps, ascii_only), esc(vcps, ascii_only), esc(k2cps, ascii_only)
     # (line code points, p) ; p = index just after the key's '":' or None
